@@ -50,6 +50,7 @@ def make_h(tier):
     quick = tier == "quick"
 
     def h(ctx):
+        any_rule = set()
         import src.linter_config.ignore as ign
         from src.orchestrator.core import Orchestrator
         dirs, exts = vocab()
@@ -70,11 +71,15 @@ def make_h(tier):
         ig = ctx.pick("ignore_pattern", ("none", "dir1/", "build/", "*.ts", "dir1/file", "dir1/**", "**/file", "**/dir1/", "**/dir2/", "wild-dir1/", "dir1/dir2/"))
         if ig not in ("none", "build/", "dir1/") and d1 not in ("pkg", "build", "buildx", "xbuild", "BUILD", "node_modules", ".hidden", "keep.py"):
             ctx.assume(False)
-        src_kind = ctx.pick("ignore_source", (".thailintignore", "config-ignore")) if ig != "none" else "none"
+        src_kind = ctx.pick("ignore_source", (".thailintignore", "config-ignore", ".thailintignore-next-to-a-config-list",
+                                              "config-ignore-next-to-an-ignore-file")) if ig != "none" else "none"
         explicit = ctx.flag("also_named_explicitly")
         # the command line has its own target handling (files vs directories, --no-recursive): always exercised where explicit
         # files meet a non-recursive directory target, everywhere in the thorough tier
-        entry = ctx.pick("entry", ("library", "cli")) if (ig == "none" and (not quick or (explicit and not recursive))) else "library"
+        api_too = not quick or (fname in ("a.py", "b.ts") and d1 in ("pkg", "build", ".hidden"))
+        entries = ("library", "cli") if (ig == "none" and (not quick or (explicit and not recursive))) else ("library",)
+        entries += ("linter-api",) if api_too else ()
+        entry = ctx.pick("entry", entries) if len(entries) > 1 else "library"
         root = Path(tempfile.mkdtemp(prefix="c14-"))
         try:
             (root / ".git").mkdir()
@@ -87,10 +92,15 @@ def make_h(tier):
                        "dir1/**": d1 + "/**", "**/file": "**/" + fname, "**/dir1/": "**/" + d1 + "/", "**/dir2/": "**/" + d2 + "/",
                        "wild-dir1/": d1[:-1] + "*/", "dir1/dir2/": d1 + "/" + d2 + "/"}[ig]
             if pattern is not None:
-                if src_kind == ".thailintignore":
+                # a project may carry both sources: each keeps its effect (the other one holds an unrelated pattern)
+                if src_kind.startswith(".thailintignore"):
                     (root / ".thailintignore").write_text("# comment\n" + pattern + "\n")
+                    if src_kind != ".thailintignore":
+                        (root / ".thailint.yaml").write_text("ignore:\n  - \"zzz_unrelated/\"\n")
                 else:
                     (root / ".thailint.yaml").write_text("ignore:\n  - \"%s\"\n" % pattern)
+                    if src_kind != "config-ignore":
+                        (root / ".thailintignore").write_text("zzz_unrelated/\n")
             ign.clear_ignore_parser_cache()
             if entry == "library":
                 o = Orchestrator(project_root=root)
@@ -98,6 +108,15 @@ def make_h(tier):
                 if explicit:
                     vs += Orchestrator(project_root=root).lint_files([root / f for f in files])
                 got = {str(Path(v.file_path).relative_to(root)) for v in vs if v.rule_id.startswith("nesting.")}
+            elif entry == "linter-api":
+                # the documented library entry point; here EVERY rule's findings count (rules differ in how they consult the ignore list)
+                from src.api import Linter
+                vs = Linter(project_root=str(root)).lint(root) if recursive else Orchestrator(project_root=root).lint_directory(root, recursive=False)
+                if explicit:
+                    for f in files:
+                        vs += Linter(project_root=str(root)).lint(root / f)
+                got = {str(Path(v.file_path).relative_to(root)) for v in vs if v.rule_id.startswith("nesting.")}
+                any_rule = {str(Path(v.file_path).relative_to(root)) for v in vs}
             else:
                 import json
                 from click.testing import CliRunner
@@ -130,6 +149,9 @@ def make_h(tier):
         ctx.cover("some-linted" if got else "none-linted")
         ctx.require("excluded-or-ignored-file-never-reported", not (got - want), wrongly_linted=sorted(got - want), pattern=pattern,
                     files=files)
+        if entry == "linter-api":
+            ctx.require("excluded-or-ignored-file-never-reported-by-any-rule", not (any_rule - want), wrongly_linted=sorted(any_rule - want),
+                        pattern=pattern, files=files)
         ctx.require("every-other-file-is-linted", not (want - got), missing=sorted(want - got), pattern=pattern, files=files,
                     recursive=recursive)
     return h
